@@ -422,7 +422,7 @@ func init() {
 				d = 5
 				kB, rB, bound = 4, 3, 3
 			}
-			for _, k := range []struct{ kind, alpha string }{{"eventlog", "one"}, {"keyvalue", "tiny"}, {"docstore", "tiny"}} {
+			for _, k := range []struct{ kind, alpha string }{{"eventlog", "one"}, {"keyvalue", "twokeys"}, {"docstore", "twokeys"}} {
 				dd := d
 				if k.kind == "eventlog" {
 					dd++
